@@ -73,7 +73,7 @@ Fixpoint run_hist (parse : text -> module -> expr * module) (st : istate) (h : l
   match h with
   | [] => []
   | t :: r =>
-      let (rr, st1) := run_cached compiled_args_rechecked setitem_clears_compiled_cache parse_cache_key_has_module parse parse_cache_skips_switching_texts st t in
+      let (rr, st1) := run_cached compiled_args_rechecked setitem_clears_compiled_cache parse_cache_key_has_module parse parse_cache_skips_switching_texts eval_does_not_write_nodes st t in
       SL [sx_of_res rr; sx_of_store (vars st1); sx_of_res (fst (eval_pure (fst (parse t (cur st))) (vars st)))]
         :: run_hist parse st1 r
   end.
